@@ -7,7 +7,7 @@
           dyadic-box reference), same covered region on unit cells, and the model's merge of the observed list changes nothing.
    A case beyond the shared work bound (Merge.within_bound) is executed on neither side: the harness reports "skipped". *)
 From Coq Require Import ZArith String List Bool.
-From SID Require Import Base Str Ids ZoomCore Wire Merge MergeCheck MergeApi.
+From SID Require Import Base Str Ids ZoomCore Wire Merge MergeCheck MergeApi MergeHelpers.
 Import ListNotations.
 Open Scope string_scope.
 
@@ -82,5 +82,32 @@ Definition d_higher (args : list val) (obs : val) : verdict :=
   | _, _ => bad_case
   end.
 
+(* the exported merge helpers as stand-alone API: a scripted sequence (construct units and highs, Merge receivers/arguments —
+   the same argument object reused —, snapshots of every object before and after every Merge); model = MergeHelpers.script_model
+   (heap with the aliasing the code creates), prop = MergeHelpers.script_prop (argument unchanged, receiver = union, nothing else
+   touched, IsDense = count test, construction = dyadic reference), computed from the observations alone *)
+Definition dec_uspec (v : val) : option uspec :=
+  match v with VL [VS id; VZ hd; VZ vd] => match parse_eid id with Some i => Some (i, hd, vd) | None => None end | _ => None end.
+Definition dec_hspec (v : val) : option hspec :=
+  match v with VL [VZ k; VZ hd; VZ vd] => if (0 <=? k)%Z then Some (Z.to_nat k, hd, vd) else None | _ => None end.
+Definition dec_op (v : val) : option (nat * nat) :=
+  match v with VL [VZ r; VZ a] => if ((0 <=? r) && (0 <=? a))%Z then Some (Z.to_nat r, Z.to_nat a) else None | _ => None end.
+Definition d_helpers (args : list val) (obs : val) : verdict :=
+  match args with
+  | [VL us; VL hs; VL ops] =>
+      match all_opt (map dec_uspec us), all_opt (map dec_hspec hs), all_opt (map dec_op ops) with
+      | Some us, Some hs, Some ops =>
+          if script_ok us hs ops then
+            match obs with
+            | VPanic | VTimeout => bad_case
+            | _ => let m := script_model us hs ops in mkv (val_eqb m obs) (script_prop us hs ops obs) "-" m
+            end
+          else bad_case
+      | _, _, _ => bad_case
+      end
+  | _ => bad_case
+  end.
+
 Definition table_C04 : table :=
-  [("MergeExtendedSpatialIds", fun _ => d_merge_ext); ("MergeSpatialIds", fun _ => d_merge_sid); ("Higher", fun _ => d_higher)].
+  [("MergeExtendedSpatialIds", fun _ => d_merge_ext); ("MergeSpatialIds", fun _ => d_merge_sid); ("Higher", fun _ => d_higher);
+   ("HighSpatialIDOps", fun _ => d_helpers); ("MergeHelperSequence", fun _ => d_helpers)].
